@@ -245,7 +245,9 @@ def run(quiet=False, repo=None):
             fail('hexlify %r' % b)
     for t in [b'', b'=', b'a', b'ab', b'abc', b'ab=', b'ab==', b'abc=',
               b'a b c d', b'ab\nc=', b'!!!!', b'YQ', b'YQ=', b'=YQ==',
-              b'YWJj\xff']:
+              b'YWJj\xff', b'YQ==YQ==', b'YQ=a', b'YQ=a=', b'Y=Q==', b'=',
+              b'==', b'a=', b'ab=c', b'ab=cd', b'abc=d', b'ab==cd', b'*!!!',
+              b'*', b'YWJjZA', b'YWJjZA=', b'YWJjZA==', b'YW Jj\nZA==x']:
         try:
             exp = base64.b64decode(t)
         except Exception as e:
